@@ -29,6 +29,9 @@ pub struct Case {
     /// fault: (point index, errno choice); None = no fault
     pub fault: Option<(u16, u8)>,
     pub block: Option<u64>,
+    /// big tree: (number of small files, a directory already sits where the first FIFO must go)
+    #[serde(default)]
+    pub big: Option<(u16, bool)>,
 }
 
 pub fn strategy() -> BoxedStrategy<Case> {
@@ -45,7 +48,24 @@ pub fn strategy() -> BoxedStrategy<Case> {
             if run.seed % 3 == 0 {
                 run.workers = [1u8, 2, 64][(run.seed / 3 % 3) as usize];
             }
-            Case { tree, specials, shape, run, fault, block }
+            Case { tree, specials, shape, run, fault, block, big: None }
+        })
+        .boxed()
+}
+
+/// many operations behind a failing one: bounded queues must not dead-lock when their consumers are gone
+pub fn big_strategy() -> BoxedStrategy<Case> {
+    (strategy(), prop_oneof![Just(200u16), Just(400u16), Just(700u16)], prop::bool::weighted(0.5), prop_oneof![3 => Just(1u8), 2 => Just(2u8), 1 => Just(4u8)])
+        .prop_map(|(mut c, n, obstacle, w)| {
+            c.shape = 0;
+            c.tree.truncate(4);
+            if c.specials.is_empty() {
+                c.specials.push((0, 0));
+            }
+            c.run.workers = w;
+            c.run.stall = None;
+            c.big = Some((n, obstacle));
+            c
         })
         .boxed()
 }
@@ -79,7 +99,21 @@ pub fn build(c: &Case, root: &[u8]) -> (Vec<Ent>, Inv, Vec<Vec<u8>>) {
                 let d = &dirs[monotonic_index(*pi, dirs.len())];
                 let p = join(d, format!("special_{}", i).as_bytes());
                 ents.push(Ent::new(&p, if *k == 0 { Kind::Fifo } else { Kind::Sock }));
+                if i == 0 {
+                    if let Some((_, true)) = c.big {
+                        // natural obstacle: a directory where the special file must go (its removal fails)
+                        ents.push(Ent::dir(&join(b"d", &p)));
+                    }
+                }
                 specials.push(p);
+            }
+            if let Some((n, _)) = c.big {
+                for d in 0..3 {
+                    ents.push(Ent::dir(format!("s/big{}", d).as_bytes()));
+                }
+                for i in 0..n {
+                    ents.push(Ent::file(format!("s/big{}/f{}", i % 3, i).as_bytes(), Content::data((i % 40) as u64, (i % 200) as u8)));
+                }
             }
         }
     }
@@ -197,7 +231,7 @@ pub fn judge(c: &Case, rec: &mut Rec) -> Verdict {
     let fired: Vec<&Ev> = out.log.iter().filter(|e| e.act.is_some()).collect();
     let th_role = fired.first().and_then(|e| out.roles.get(e.th)).copied().unwrap_or(Role::Unknown);
     let others_busy = fired.first().map(|f| out.log.iter().any(|e| e.th != f.th && e.t_in > f.t_in && e.path.as_ref().map(|p| p.starts_with(&root)).unwrap_or(false))).unwrap_or(false);
-    let shape = ["tree", "fifo-source", "socket-source", "empty-dir", "empty-file"][c.shape as usize % 5];
+    let shape = if c.big.is_some() { "big-tree" } else { ["tree", "fifo-source", "socket-source", "empty-dir", "empty-file"][c.shape as usize % 5] };
     let key = format!(
         "{}|w{}|{}|{}|fault={}|{}|specials={}|exit={}",
         driver,
@@ -243,6 +277,61 @@ pub fn judge(c: &Case, rec: &mut Rec) -> Verdict {
     }
 }
 
+/// C05's fault plans (short counts, unsupported copy/clone/extent facilities) under the hang oracle
+fn judge_plan(c: &super::c05::Case, rec: &mut Rec) -> Verdict {
+    use super::c01;
+    use super::c05;
+    let run = |limit: u64| -> Result<(SupOut, Vec<String>), String> {
+        let sb = Sandbox::new().map_err(|e| format!("sandbox: {e}"))?;
+        materialise(&sb.root, &c01::ents_for(&c.base)).map_err(|e| format!("materialise: {e}"))?;
+        let args = c01::args_for(&c.base);
+        let mut spec = sup_spec(&sb, args.clone(), c05::rules_for(c), Sched::free());
+        spec.timeout = std::time::Duration::from_secs(limit);
+        let o = Sup::run(spec);
+        if let Some(e) = &o.setup_error {
+            return Err(format!("supervisor {e}"));
+        }
+        Ok((o, args.iter().map(|a| esc(a)).collect()))
+    };
+    if matches!(c.plan, c05::PlanKind::NaturalCrossFs | c05::PlanKind::NaturalTmpfs) {
+        return Verdict::Pass;
+    }
+    let (o, argv) = match run(20) {
+        Ok(x) => x,
+        Err(e) => return Verdict::Inconclusive(e),
+    };
+    rec.eval(1);
+    let driver = if c.base.parblock { "parblock" } else { "parfile" };
+    rec.class(format!("plan|{}|{}|{}", c05::plan_name(&c.plan).split('/').next().unwrap_or(""), driver, if o.timed_out { "HANG" } else { "exits" }));
+    if o.fired.iter().sum::<usize>() > 0 {
+        rec.nontrivial(case_hash(c));
+    }
+    if !o.timed_out {
+        return Verdict::Pass;
+    }
+    let (o2, _) = match run(60) {
+        Ok(x) => x,
+        Err(e) => return Verdict::Inconclusive(e),
+    };
+    rec.eval(1);
+    if !o2.timed_out {
+        return Verdict::Inconclusive("slow but finished".into());
+    }
+    // baseline call count: a run of the same case without the plan is not available cheaply; use a
+    // generous absolute bound instead (these cases make a few thousand calls at most)
+    match classify_hang(&o2, 3_000) {
+        Some(state) => {
+            let kind = if state.starts_with("deadlock") { "deadlock" } else { "spin" };
+            Verdict::faild(
+                format!("C07|{}|{}|plan={}", driver, kind, c05::plan_name(&c.plan).split('/').next().unwrap_or("")),
+                format!("xcp does not terminate under plan {} (60 s, twice): {}", c05::plan_name(&c.plan), state),
+                json!({"argv": argv, "plan": c05::plan_name(&c.plan), "threads": o2.hang_state, "total_calls": o2.total_calls}),
+            )
+        }
+        None => Verdict::Inconclusive(format!("hang without a confirmable state ({} calls): {}", o2.total_calls, o2.hang_state.unwrap_or_default())),
+    }
+}
+
 /// library client: copy() returns and the stream ends, under schedules and faults (C12's probe)
 fn judge_api(c: &c12::Case, rec: &mut Rec) -> Verdict {
     let mut scratch = Rec::default();
@@ -276,15 +365,23 @@ impl Check for C07 {
             Tier::Thorough => (80000, 20000),
         };
         prop_loop(ctx, rec, "cli", strategy(), ctx.share(n), judge);
+        prop_loop(ctx, rec, "big", big_strategy(), ctx.share(n / 40), judge);
+        prop_loop(ctx, rec, "plan", super::c05::strategy(), ctx.share(n / 2), judge_plan);
         let api = c12::strategy().prop_map(|mut c| {
             if c.sup.is_none() {
-                c.sup = Some(RunCfg { parblock: c.parblock, workers: c.workers, kind: (c.fault_k % 8), seed: c.fault_k as u64 * 7919 + c.workers as u64, change_points: vec![] });
+                c.sup = Some(RunCfg { parblock: c.parblock, workers: c.workers, kind: (c.fault_k % 8), seed: c.fault_k as u64 * 7919 + c.workers as u64, change_points: vec![], stall: None });
             }
             c
         });
         prop_loop(ctx, rec, "api", api, ctx.share(na), judge_api);
     }
     fn replay(&self, _ctx: &Ctx, sub: &str, case: &Value) -> Verdict {
+        if sub == "plan" {
+            return match serde_json::from_value::<super::c05::Case>(case.clone()) {
+                Ok(c) => judge_plan(&c, &mut Rec::default()),
+                Err(e) => Verdict::Inconclusive(format!("bad case: {e}")),
+            };
+        }
         if sub == "api" {
             return match serde_json::from_value::<c12::Case>(case.clone()) {
                 Ok(c) => judge_api(&c, &mut Rec::default()),
@@ -303,6 +400,6 @@ impl Check for C07 {
         }
     }
     fn required_classes(&self, _tier: Tier) -> Vec<String> {
-        ["fifo-source", "socket-source", "empty-dir", "empty-file", "|w64|", "|w1|", "|worker|", "|walker|", "|dispatcher|", "api|parblock", "api|parfile|channel"].iter().map(|s| s.to_string()).collect()
+        ["fifo-source", "socket-source", "empty-dir", "empty-file", "|w64|", "|w1|", "|worker|", "|walker|", "|dispatcher|", "api|parblock", "api|parfile|channel", "big-tree", "plan|cfr-errno38", "plan|clamp-cfr"].iter().map(|s| s.to_string()).collect()
     }
 }
